@@ -219,6 +219,18 @@ func genFATCfg(t *rapid.T, maxBytes int64) fatCfg {
 		}
 	}
 	c.Size = rapid.SampledFrom(ok).Draw(t, "size")
+	if rapid.IntRange(0, 5).Draw(t, "wideGeometry") == 0 {
+		// any sector count in the type's whole legal range (the sparse device makes the size free; histories on
+		// such volumes are kept to a few operations): geometry rules have boundaries at sizes no list anticipates
+		lo, hi := int64(64<<10), int64(127<<20)
+		switch c.Kind {
+		case "fat16":
+			lo, hi = 4400<<10, 1<<30
+		case "fat32":
+			lo, hi = 1<<20+1536, 300<<20
+		}
+		c.Size = rapid.Int64Range(lo/512, hi/512).Draw(t, "wideSectors") * 512
+	}
 	// a few sectors more, so that the data area leaves every possible remainder of a cluster unused at its end
 	c.Size += int64(rapid.IntRange(0, 15).Draw(t, "oddSectors")) * 512
 	c.Start = rapid.SampledFrom([]int64{0, 0, 512, 1 << 20, 1<<32 + 4096}).Draw(t, "start")
@@ -312,6 +324,13 @@ func genFATHistory(t *rapid.T, o fatGenOpts) histCase {
 		return p
 	}
 	nops := rapid.IntRange(1, o.maxOps).Draw(t, "nops")
+	if c.Cfg.Size > o.maxBytes+16*512 {
+		// a volume from the wide-geometry class: a few plain operations, no fill or populate cycles
+		o.noCycles = true
+		if nops > 4 {
+			nops = 4
+		}
+	}
 	if c.Cfg.Kind == "fat32" && c.Cfg.BS == 512 && !o.noCycles && rapid.IntRange(0, 11).Draw(t, "highClusters") == 0 {
 		// a FAT32 volume with more than 65536 clusters whose first 33 MiB are taken by one file of zeros: everything
 		// created afterwards starts at a cluster number that needs the high word of the directory entry
